@@ -309,4 +309,101 @@ theorem tlookup_buildUmap (es : List TuEntry) (code : Int) (h : nbspClash (tuDef
   rw [tlookup_foldl_addCid (tuDefs es) [] code (by intro d _ _; simp [tlookup_nil]) (noClash_of_nbspClash h)]
   cases tuText (tuDefs es) code <;> simp [tlookup_nil]
 
+/-! ### Differences arrays as runs -/
+
+theorem assignments_names (names : List (Option Name)) : ∀ (cur : Int) (rest : List DiffTok),
+    assignments cur (names.map DiffTok.name ++ rest) =
+      numberFrom cur names ++ assignments (cur + names.length) rest := by
+  induction names with
+  | nil => intro cur rest; simp [numberFrom]
+  | cons n ns ih =>
+    intro cur rest
+    simp only [List.map_cons, List.cons_append, assignments, numberFrom, ih, List.length_cons]
+    have : cur + 1 + (ns.length : Int) = cur + ((ns.length + 1 : Nat) : Int) := by omega
+    rw [this]
+
+theorem assignments_runs (runs : List (Int × List (Option Name))) : ∀ (cur : Int),
+    assignments cur (diffOfRuns runs) = runs.flatMap (fun r => numberFrom r.1 r.2) := by
+  induction runs with
+  | nil => intro cur; rfl
+  | cons r rs ih =>
+    intro cur
+    have e : diffOfRuns (r :: rs) = DiffTok.num r.1 :: (r.2.map DiffTok.name ++ diffOfRuns rs) := by
+      simp [diffOfRuns]
+    rw [e]
+    simp only [assignments, assignments_names, List.flatMap_cons]
+    rw [ih]
+
+/-- The i-th name of a run that starts at `first` gets the code `first + i` - for every i (no wrap at 255). -/
+theorem numberFrom_getElem (names : List (Option Name)) : ∀ (first : Int) (i : Nat),
+    (numberFrom first names)[i]? = (names[i]?).map (fun nm => (first + i, nm)) := by
+  induction names with
+  | nil => intro first i; simp [numberFrom]
+  | cons n ns ih =>
+    intro first i
+    cases i with
+    | zero => simp [numberFrom]
+    | succ j =>
+      simp only [numberFrom, List.getElem?_cons_succ, ih]
+      have : first + 1 + (j : Int) = first + ((j + 1 : Nat) : Int) := by omega
+      rw [this]
+
+/-! ### the exact space / no-break-space rule -/
+
+/-- One definition of a code on top of the value in effect. -/
+def nbStep (cur : Option Text) (v : Text) : Option Text :=
+  if v == [0xA0] && cur == some [0x20] then cur else some v
+
+theorem effective_cons (v : Text) (older : List Text) : effective (v :: older) = nbStep (effective older) v := by
+  simp only [effective, nbStep]
+  by_cases h : (v == [0xA0] && effective older == some [0x20]) = true
+  · simp only [h, if_true]
+    simp only [Bool.and_eq_true, beq_iff_eq] at h
+    exact h.2.symm
+  · simp [h]
+
+theorem foldl_nbStep (vs : List Text) : ∀ (acc : List Text),
+    vs.foldl nbStep (effective acc) = effective (vs.reverse ++ acc) := by
+  induction vs with
+  | nil => intro acc; rfl
+  | cons v vs ih =>
+    intro acc
+    simp only [List.foldl_cons, ← effective_cons, ih (v :: acc), List.reverse_cons, List.append_assoc,
+      List.singleton_append]
+
+theorem tlookup_addCid (m : Table) (cid code : Int) (bs : List UInt8) :
+    tlookup (addCid2Unichr m cid bs) code =
+      if cid == code then nbStep (tlookup m code) (utf16beIgnore bs) else tlookup m code := by
+  unfold addCid2Unichr nbStep
+  simp only [COLLISION_NEW, COLLISION_OLD]
+  by_cases hk : cid = code
+  · subst hk
+    simp only [beq_self_eq_true, if_true]
+    by_cases h : (utf16beIgnore bs == [160] && tlookup m cid == some [32]) = true
+    · simp [h]
+    · simp [h, tlookup_cons]
+  · have hk' : (cid == code) = false := by simpa using hk
+    simp only [hk', Bool.false_eq_true, if_false]
+    by_cases h : (utf16beIgnore bs == [160] && tlookup m cid == some [32]) = true
+    · simp [h]
+    · simp [h, tlookup_cons, hk']
+
+theorem tlookup_foldl_addCid_exact (defs : List (Int × List UInt8)) (code : Int) : ∀ (m : Table),
+    tlookup (defs.foldl (fun m d => addCid2Unichr m d.1 d.2) m) code =
+      ((defs.filter (fun d => d.1 == code)).map (fun d => utf16beIgnore d.2)).foldl nbStep (tlookup m code) := by
+  induction defs with
+  | nil => intro m; rfl
+  | cons d rest ih =>
+    intro m
+    simp only [List.foldl_cons, ih, tlookup_addCid, List.filter_cons]
+    cases hk : (d.1 == code) <;> simp
+
+/-- For EVERY ToUnicode map the dict holds, per code, the value in effect under the space / no-break-space rule. -/
+theorem tlookup_buildUmap_exact (es : List TuEntry) (code : Int) :
+    tlookup (buildUmap es) code = tuTextExact (tuDefs es) code := by
+  unfold buildUmap tuTextExact codeDefs
+  rw [tlookup_foldl_addCid_exact]
+  have := foldl_nbStep ((List.filter (fun d => d.1 == code) (tuDefs es)).map (fun d => utf16beIgnore d.2)) []
+  simpa [tlookup_nil, effective] using this
+
 end PdfVerif.SimpleFont
